@@ -8,6 +8,7 @@ of the record, the argument is positional, and a `class` has no template argumen
 -/
 import TgModel.Props.C05Foreach
 import TgModel.Lemmas.Ix11ClassRef
+import TgModel.Lemmas.Ix12ClassRef
 
 namespace Tg.C05
 open Tg Tg.Ide Tg.Bodied
@@ -241,6 +242,257 @@ example : parentUseOf [("/a.td", "include \"b.td\"\n"),
 example : parentUseOf [("/a.td", "include \"b.td\"\n"),
       ("/b.td", "class B<int a>;\ndefvar x = 1;\nclass C : B<x>;\ndef d : B<x>;\n")] [0] 3 0 =
     some (1, "x", (56, 57)) := by
+  decide +kernel
+
+/-! ## the limits lifted (built workspaces)
+
+`parent_arg_use_goes_to_declaration_wide`: any parent of the list, positional or named argument
+(`B<x>`, `B<a = x>`), and a `class` statement may have template arguments of its own
+(`class C<int p> : A, B<x>;`) - on a workspace built by `buildWorkspace` (its trees are bodied, so the
+values and types of the template argument list leave the scope stack as it is). -/
+
+open Tg.Ide.Ix12
+
+theorem parent_arg_use_goes_to_declaration_wide {vfs : List (String × String)} {rootPath : String}
+    {inc : Option String} {ws : Workspace} (hws : buildWorkspace vfs rootPath inc = .ok ws)
+    {res : Index.IndexResult} (hr : Index.index ws = .ok res) (g : Nat) (hg : TopReach ws g) (sf sl : PTree)
+    (hsf : Ast.sourceFileCast (ws.tree g) = some sf) (hsl : Ast.sourceFileStatementList sf = some sl)
+    (p1 : List PTree) (d : PTree) (p2 : List PTree) (s : PTree) (spost : List PTree)
+    (hsplit : Ast.statementListStatements sl = p1 ++ d :: (p2 ++ s :: spost))
+    (B : String) (hd : DeclaresClass B d) (id : PTree) (hu : ParentSiteW B s id) (name : String) (se : Nat × Nat)
+    (hiv : Ast.identifierValue id = some name) (hir : Ast.identifierRange id = some se) (hne : name ≠ "") :
+    ∃ c t c' rest, c.fileTrace = g :: rest ∧ LiveInv c ∧
+      (Index.indexIdentifierValue id).run c = .ok (t, c') ∧ SmLater c'.symbolMap res.symbolMap ∧
+      ∀ S, Tg.C13.resolveName c name = some S → ∀ p, se.1 ≤ p → p < se.2 →
+        gotoDefinitionExec (Analysis.new ws) g p = .ok (some (symbolDefineLoc res.symbolMap S).toLoc) ∧
+        referencesExec (Analysis.new ws) g p =
+          .ok (some (refsOf res.symbolMap.ops.toList (c.symbolMap.gidOf S))) ∧
+        (⟨g, se.1, se.2⟩ : Loc) ∈ refsOf res.symbolMap.ops.toList (c.symbolMap.gidOf S) := by
+  have hb := buildWorkspace_bodied hws
+  have hw := built_wsGood hws
+  obtain ⟨k, cs, cs', rest, hlive, hcws, htr, hruns, hla⟩ := file_stmtsRun ws res hr g hg sf sl hsf hsl
+  rw [hsplit] at hruns
+  obtain ⟨c1, c2, r1, rd, r2⟩ := hruns.split
+  obtain ⟨e1, e2, m1, ms, m3⟩ := r2.split
+  have hc2 : HasClass B c2 := class_declares k B d hd c1 c2 () rd
+  obtain ⟨cv, ct, csl, csf⟩ := mkRec_cls B k
+  have he1 : HasClass B e1 :=
+    (m1.keeps (R := ClsRel B) (fun x _ => Index.indexStatement_keeps cv ct csl csf x)) hc2
+  have ae : AttrRel cs e1 := KeepRel.trans (r1.keeps (fun x _ => statement_attr k x))
+    (KeepRel.trans ((statement_attr k d).run _ _ _ rd) (m1.keeps (fun x _ => statement_attr k x)))
+  have hews : e1.ws = ws := ae.ws.trans hcws
+  obtain ⟨c, t, c', hpre, hsite, hl⟩ := statement_parent_visitsW k hb B s id hu e1 () e2 ⟨he1, hews⟩ ms
+  have pp : PreR cs e1 := KeepRel.trans (r1.keeps (fun x _ => statement_preR k x))
+    (KeepRel.trans ((statement_preR k d).run _ _ _ rd) (m1.keeps (fun x _ => statement_preR k x)))
+  have hlater : SmLater c'.symbolMap res.symbolMap :=
+    SmLater.trans hl (SmLater.trans (m3.keeps (fun x _ => statement_later k x)) hla)
+  have hft : c.fileTrace = g :: rest := (hpre.2.trans pp.2).trans htr
+  have hlv : LiveInv c := (KeepRel.trans pp.1 hpre.1).inv hlive
+  refine ⟨c, t, c', rest, hft, hlv, hsite, hlater, fun S hS p h1 h2 => ?_⟩
+  exact use_goes_to_declaration_live hw hr id c c' t g rest hft name ⟨g, se.1, se.2⟩
+    (identOf_of g id name se hiv hir) hne S hS hlv hsite hlater p h1 h2
+
+/-! ### executable form -/
+
+def namedArgUseId (av : PTree) : Option PTree :=
+  if av.kind == .NamedArgValue then
+    match Ast.namedArgValueName av, Ast.namedArgValueValue av with
+    | some nameValue, some v =>
+      match (Ast.valueInnerValues nameValue).head? with
+      | some inner =>
+        match Ast.innerValueSimpleValue inner with
+        | some sv => if sv.kind == .Identifier && (Ast.identifierValue sv).isSome then identValueNode v else none
+        | none => none
+      | none => none
+    | _, _ => none
+  else none
+
+theorem namedArgUseId_sound {av id : PTree} (h : namedArgUseId av = some id) : NamedArgUse av id := by
+  unfold namedArgUseId at h
+  split at h
+  · rename_i hk
+    split at h
+    · rename_i nameValue v h1 hv
+      split at h
+      · rename_i inner h2
+        split at h
+        · rename_i sv h3
+          split at h
+          · rename_i hc
+            simp only [Bool.and_eq_true, beq_iff_eq, Option.isSome_iff_exists] at hc
+            obtain ⟨h4, nm, h5⟩ := hc
+            exact ⟨by simpa using hk, ⟨nameValue, inner, sv, nm, h1, h2, h3, h4, h5⟩, v, hv, h⟩
+          · cases h
+        · cases h
+      · cases h
+    · cases h
+  · cases h
+
+def anyArgUseId (av : PTree) : Option PTree :=
+  match argUseId av with
+  | some id => some id
+  | none => namedArgUseId av
+
+theorem anyArgUseId_sound {av id : PTree} (h : anyArgUseId av = some id) : AnyArgUse av id := by
+  unfold anyArgUseId at h
+  split at h
+  · rename_i x hx; cases h; exact .positional (argUseId_sound hx)
+  · exact .named (namedArgUseId_sound h)
+
+def classRefUseIdW (cref : PTree) (ai : Nat) : Option (String × PTree) :=
+  match Ast.classRefName cref, Ast.classRefArgValueList cref with
+  | some nn, some l =>
+    match Ast.identifierValue nn, Ast.identifierRange nn, (Ast.argValueListArgValues l)[ai]? with
+    | some B, some _, some av =>
+      match anyArgUseId av with
+      | some id => some (B, id)
+      | none => none
+    | _, _, _ => none
+  | _, _ => none
+
+theorem classRefUseIdW_sound {cref id : PTree} {ai : Nat} {B : String} (h : classRefUseIdW cref ai = some (B, id)) :
+    ClassRefUseW B cref id := by
+  unfold classRefUseIdW at h
+  split at h
+  · rename_i nn l hnn hl
+    split at h
+    · rename_i B' se av hiv hir hav
+      split at h
+      · rename_i id' hid
+        cases h
+        exact ⟨⟨nn, se, hnn, hiv, hir⟩, l, _, av, _, hl, split_take_drop _ _ _ hav, anyArgUseId_sound hid⟩
+      · cases h
+    · cases h
+  · cases h
+
+/-- class name and identifier of the `ai`-th argument of the `ci`-th parent class reference -/
+def parentUseIdW (rb : PTree) (ci ai : Nat) : Option (String × PTree) :=
+  match Ast.recordBodyParentClassList rb with
+  | some pcl =>
+    match (Ast.parentClassListClasses pcl)[ci]? with
+    | some cref => classRefUseIdW cref ai
+    | none => none
+  | none => none
+
+theorem parentUseIdW_sound {rb id : PTree} {ci ai : Nat} {B : String} (h : parentUseIdW rb ci ai = some (B, id)) :
+    ParentUseW B rb id := by
+  unfold parentUseIdW at h
+  split at h
+  · rename_i pcl hp
+    split at h
+    · rename_i cref hc
+      exact ⟨pcl, _, cref, _, hp, split_take_drop _ _ _ hc, classRefUseIdW_sound h⟩
+    · cases h
+  · cases h
+
+def stmtParentUseW (s : PTree) (ci ai : Nat) : Option (String × PTree) :=
+  if s.kind == .Class then
+    match Ast.className s, Ast.classRecordBody s with
+    | some nn, some rb => if identOKB nn then parentUseIdW rb ci ai else none
+    | _, _ => none
+  else if s.kind == .Def then
+    match Ast.defRecordBody s with
+    | some rb => if defNameOKB s then parentUseIdW rb ci ai else none
+    | none => none
+  else none
+
+theorem stmtParentUseW_sound {s id : PTree} {ci ai : Nat} {B : String} (h : stmtParentUseW s ci ai = some (B, id)) :
+    ParentSiteW B s id := by
+  unfold stmtParentUseW at h
+  split at h
+  · rename_i hk
+    split at h
+    · rename_i nn rb hnn hrb
+      split at h
+      · rename_i hok
+        obtain ⟨name, se, a, b⟩ := identOKB_sound hok
+        exact .cls ⟨by simpa using hk, ⟨nn, name, se, hnn, a, b⟩, rb, hrb, parentUseIdW_sound h⟩
+      · cases h
+    · cases h
+  · split at h
+    · rename_i hk
+      split at h
+      · rename_i rb hrb
+        split at h
+        · rename_i hok
+          exact .def_ ⟨by simpa using hk, defNameOKB_sound hok, rb, hrb, parentUseIdW_sound h⟩
+        · cases h
+      · cases h
+    · cases h
+
+/-- in the file reached by `incs`: the `ai`-th template-argument value (positional or named) of the `ci`-th
+parent class reference `B<…>` of the `i`-th statement is an identifier, and an earlier statement of the file
+declares the class `B` -/
+def parentUseAt (ws : Workspace) (incs : List Nat) (i ci ai : Nat) : Option (Nat × PTree × String × (Nat × Nat)) :=
+  match fileStmts ws incs with
+  | none => none
+  | some (g, sl) =>
+    match (Ast.statementListStatements sl)[i]? with
+    | none => none
+    | some s =>
+      match stmtParentUseW s ci ai with
+      | none => none
+      | some (B, id) =>
+        if ((Ast.statementListStatements sl).take i).any (fun d => classNameOf d == some B) then
+          match Ast.identifierValue id, Ast.identifierRange id with
+          | some name, some se => if name ≠ "" then some (g, id, name, se) else none
+          | _, _ => none
+        else none
+
+theorem parent_arg_use_goes_to_declaration_wideB {vfs : List (String × String)} {rootPath : String}
+    {inc : Option String} {ws : Workspace} (hws : buildWorkspace vfs rootPath inc = .ok ws)
+    {res : Index.IndexResult} (hr : Index.index ws = .ok res) (incs : List Nat) (i ci ai : Nat) (g : Nat)
+    (id : PTree) (name : String) (se : Nat × Nat) (h : parentUseAt ws incs i ci ai = some (g, id, name, se)) :
+    ∃ c t c' rest, c.fileTrace = g :: rest ∧ LiveInv c ∧
+      (Index.indexIdentifierValue id).run c = .ok (t, c') ∧ SmLater c'.symbolMap res.symbolMap ∧
+      ∀ S, Tg.C13.resolveName c name = some S → ∀ p, se.1 ≤ p → p < se.2 →
+        gotoDefinitionExec (Analysis.new ws) g p = .ok (some (symbolDefineLoc res.symbolMap S).toLoc) ∧
+        referencesExec (Analysis.new ws) g p =
+          .ok (some (refsOf res.symbolMap.ops.toList (c.symbolMap.gidOf S))) ∧
+        (⟨g, se.1, se.2⟩ : Loc) ∈ refsOf res.symbolMap.ops.toList (c.symbolMap.gidOf S) := by
+  unfold parentUseAt at h
+  split at h
+  · cases h
+  · rename_i g' sl hfs
+    obtain ⟨hg, sf, hsf, hsl⟩ := fileStmts_sound hfs
+    split at h
+    · cases h
+    · rename_i s hs
+      split at h
+      · cases h
+      · rename_i B id' hpu
+        split at h
+        · rename_i hany
+          split at h
+          · rename_i name' se' hv hrg
+            split at h
+            · rename_i hne
+              cases h
+              obtain ⟨d, hdm, hdn⟩ := List.any_eq_true.1 hany
+              obtain ⟨p1, p2, hp⟩ := List.append_of_mem hdm
+              have hsplit := split_take_drop _ _ _ hs
+              rw [hp, List.append_assoc, List.cons_append] at hsplit
+              exact parent_arg_use_goes_to_declaration_wide hws hr g hg sf sl hsf hsl p1 d p2 s _ hsplit B
+                (classNameOf_sound (by simpa using hdn)) id (stmtParentUseW_sound hpu) name se hv hrg hne
+            · cases h
+          · cases h
+        · cases h
+
+/-- `parentUseAt` on the workspace built from `vfs` (root `/a.td`), without the tree -/
+def parentUseAtOf (vfs : List (String × String)) (incs : List Nat) (i ci ai : Nat) :
+    Option (Nat × String × (Nat × Nat)) :=
+  match buildWorkspace vfs "/a.td" none with
+  | .ok ws => (parentUseAt ws incs i ci ai).map fun x => (x.1, x.2.2)
+  | .error _ => none
+
+/-- non-vacuity: `class C<int p> : A, B<x>;` - own template arguments, second parent -/
+example : parentUseAtOf [("/a.td", "class A;\nclass B<int a>;\ndefvar x = 1;\nclass C<int p> : A, B<x>;\n")] [] 3 1 0 =
+    some (0, "x", (61, 62)) := by
+  decide +kernel
+
+/-- a named argument, and the class's own template argument as the value: `class D<int p> : A, B<a = p>;` -/
+example : parentUseAtOf [("/a.td", "class A;\nclass B<int a>;\nclass D<int p> : A, B<a = p>;\n")] [] 2 1 0 =
+    some (0, "p", (51, 52)) := by
   decide +kernel
 
 end Tg.C05
